@@ -266,8 +266,22 @@ def coordinate_typing(ctx: Ctx):
         disp = _display_props(ctx, ci)
         ctx.count("display-typed properties", len(disp))
         n_sites = 0
-        for name, m in sorted(((n, m) for c in ci.mro for n, m in c.members.items()), key=lambda x: x[0]):
-            body = SUMMARIZER.summarize(m.node)
+        all_members = sorted(((n, m) for c in ci.mro for n, m in c.members.items()), key=lambda x: x[0])
+        # a private helper METHOD's parameters stand for what its call sites hand it (`_margin_proportion_matrix(self.rows_margin)`):
+        # a parameter bound to a display-typed property at a call site is that property inside the helper
+        call_args: Dict[str, Dict[str, ast.expr]] = {}
+        for _n, cm in all_members:
+            for call in ast.walk(cm.node):
+                if isinstance(call, ast.Call) and isinstance(call.func, ast.Attribute) and isinstance(call.func.value, ast.Name) and call.func.value.id == "self":
+                    hm = ctx.repo.lookup(ci, call.func.attr)
+                    if hm is None or hm.kind != "method" or not call.func.attr.startswith("_") or call.func.attr in ("_assemble_matrix", "_assemble_vector", "_assemble_marginal"):
+                        continue
+                    bound = list(zip(hm.params, call.args)) + [(k.arg, k.value) for k in call.keywords if k.arg]
+                    for p_, a in bound:
+                        if isinstance(a, ast.Attribute) and isinstance(a.value, ast.Name) and a.value.id == "self" and a.attr in disp:
+                            call_args.setdefault(call.func.attr, {}).setdefault(p_, a)
+        for name, m in all_members:
+            body = SUMMARIZER.summarize(m.node, dict(call_args[name])) if name in call_args else SUMMARIZER.summarize(m.node)
             # (a) payload-only operands of assembly / block construction / measure calls
             for node in ast.walk(body):
                 if not isinstance(node, ast.Call):
